@@ -43,7 +43,7 @@ import (
 //	out: per op 0: n * (hist cont0 cont1 capt); per op 1: the cell; per op 2: n weights
 func init() {
 	hx.Register(&hx.Stream{Name: "c16p", Gen: genC16p, Run: runC16p})
-	hx.Register(&hx.Stream{Name: "c16h", Gen: genC16h, Run: runC16h})
+	hx.Register(&hx.Stream{Name: "c16h", Gen: genC16h, Run: runC16h, Shrink: shrinkC16h, Describe: describeC16h})
 }
 
 // ---------------------------------------------------------------------------------------------
